@@ -55,6 +55,12 @@ pub fn check_optimizer(
     ops: &[String],
     tag: &str,
 ) -> Option<OptStats> {
+    if super::mpc_common::max_node_bits(orig) > super::mpc_common::GIANT_NODE_BITS {
+        // the optimizer evaluates constant sub-graphs and the check evaluates everything: a node
+        // value of more than 16 MB is an allocation problem, not a case
+        ctx.count("skipped_giant_node_program", 1);
+        return None;
+    }
     let ctx_json = || serde_json::to_string(orig).unwrap_or_default();
     let seed = ctx.rng.seed16();
     let o2 = orig.clone();
